@@ -147,7 +147,7 @@ def _deductive_all(prop, tier='quick'):
     tasks += [('H', prop, tier, name) for name, (mk, props) in zshape.CONTRACTS.items() if prop in props]
     if prop in ('C04', 'C08', 'C09', 'C10'):
         tasks.append(('O', prop, tier, None))
-    if prop in ('C14', 'C15'):
+    if prop in ('C14', 'C15', 'C08', 'C10'):
         tasks.insert(0, ('K', prop, tier, None))
     if prop == 'C11':
         tasks.insert(0, ('V', prop, tier, None))
